@@ -454,7 +454,7 @@ static void stage_v6(int sh, int ns, uint64_t& ord, bool T, const Args& A) {
   const std::vector<std::string> full = {"0", "1", "a", "100", "ffff", "00ab", "abcde", "g", ""};  // "100": digit-count boundary of the piece writer (with "a"=0xa, "00ab"=0xab 2 digits, "ffff" 4 digits)
   const std::vector<std::string> small = {"0", "1", "ffff", "00ab"};
   const std::vector<std::string> tails = {"", "1.2.3.4", "255.255.255.255", "0.0.0.0", "256.1.1.1", "1.2.3.256", "01.2.3.4", "1.2.3.04", "1.2.3",
-                                          "1.2.3.4.5", "1.2.3.4.", "1..3.4", "a.2.3.4", "1.2.3.1000"};
+                                          "1.2.3.4.5", "1.2.3.4.", "1..3.4", "a.2.3.4", "1.2.3.1000", "1192.168.0.1", "3127.0.0.1", "0001.2.3.4"};  // 4-digit first part: the piece reader consumes 4 characters before the dot is seen
   const std::vector<std::string> notail = {""};
   uint64_t n = 0, nev = 0;
   auto special = [&](const std::string& s) {
